@@ -197,6 +197,11 @@ stringify(const string &source) {
   for (it = source.begin(); it != source.end(); ++it) {
     char c = *it;
 
+    if (c == no_expand_mark && (state & S_quoted) == 0) {
+      // Not part of the spelling.
+      continue;
+    }
+
     if ((state & S_escaped) == 0) {
       switch (c) {
       case '\\':
@@ -245,7 +250,7 @@ stringify(const string &source) {
 bool CPPManifest::
 would_paste(char a, char b) {
   bool a_word = (isalnum((unsigned char)a) || a == '_');
-  bool b_word = (isalnum((unsigned char)b) || b == '_');
+  bool b_word = (isalnum((unsigned char)b) || b == '_' || b == no_expand_mark);
   if (a_word && b_word) {
     return true;
   }
@@ -760,7 +765,19 @@ r_expand(const Expansion &expansion, const vector_string &args,
       if (piece.empty()) {
         return;
       }
-      if (!result.empty() && !paste &&
+      if (!result.empty() && paste) {
+        // The two tokens become a new one, which is not marked.
+        size_t e = result.size();
+        while (e > 0 && (isalnum((unsigned char)result[e - 1]) || result[e - 1] == '_')) {
+          --e;
+        }
+        if (e > 0 && result[e - 1] == no_expand_mark) {
+          result.erase(e - 1, 1);
+        }
+        result.append(piece, piece[0] == no_expand_mark ? 1 : 0, string::npos);
+        return;
+      }
+      if (!result.empty() &&
           (space || would_paste(result.back(), piece[0]))) {
         result += ' ';
       }
